@@ -378,7 +378,9 @@ class Ctx:
                 return len(v.conc) > 0
             if v.kind == "list":
                 return sort_of(v.sym.ty).len(v.sym.t) > 0
-            raise Unsupported("truthiness of symbolic dict/set")
+            k = z3.Const(self.fresh_name("k"), sort_of(v.sym.ty.args[0]))
+            dom = sort_of(v.sym.ty).dom(v.sym.t) if v.kind == "dict" else v.sym.t
+            return z3.Exists([k], z3.Select(dom, k))
         if isinstance(v, Opaque):
             raise Unsupported(f"truthiness of opaque {v.desc}")
         if isinstance(v, ExcValue):
